@@ -743,6 +743,20 @@ impl<'a, T> Clone for SetIter<'a, T> {
         SetIter { slots: self.slots, pos: self.pos, rot: self.rot }
     }
 }
+/// (added for C12: `ListenAddresses::iter` returns `impl ExactSizeIterator`)
+impl<'a, T> ExactSizeIterator for SetIter<'a, T> {
+    fn len(&self) -> usize {
+        let mut n = 0;
+        let mut pos = self.pos;
+        while pos < CAP {
+            if cell(self.slots, (pos + self.rot) % CAP).is_some() {
+                n += 1;
+            }
+            pos += 1;
+        }
+        n
+    }
+}
 pub struct SetIntoIter<T> {
     slots: [Option<T>; CAP],
     pos: usize,
@@ -941,5 +955,140 @@ impl<'a, K, V> Iterator for LruIter<'a, K, V> {
             }
         }
         None
+    }
+}
+
+// ---------------------------------------------------------------------------
+// SmallMap<K, V, N>: the same assumed finite-map contract with a capacity chosen by
+// the unit (N = 2 or 3) and NO symbolic indexing at all: every operation is one
+// pass over the N cells with a constant index per unrolled iteration, and cells can
+// be placed directly with `from_cells`.  For maps whose values are large or hold
+// `Arc`s (Multiaddr inside ConnectedPoint/PendingPoint), where the CAP=4 shim with
+// its search-then-index shape exhausts CBMC's memory.  Iteration is in slot order;
+// harnesses place entries in arbitrary slots, so no proof depends on the order.
+pub struct SmallMap<K, V, const N: usize> {
+    slots: [Option<(K, V)>; N],
+}
+impl<K, V, const N: usize> Default for SmallMap<K, V, N> {
+    fn default() -> Self {
+        SmallMap { slots: std::array::from_fn(|_| None) }
+    }
+}
+impl<K: Eq, V, const N: usize> SmallMap<K, V, N> {
+    pub fn new() -> Self {
+        Self::default()
+    }
+    pub fn from_cells(slots: [Option<(K, V)>; N]) -> Self {
+        SmallMap { slots }
+    }
+    pub fn len(&self) -> usize {
+        let mut n = 0;
+        let mut i = 0;
+        while i < N {
+            if self.slots[i].is_some() {
+                n += 1;
+            }
+            i += 1;
+        }
+        n
+    }
+    pub fn is_empty(&self) -> bool {
+        self.len() == 0
+    }
+    pub fn contains_key(&self, k: &K) -> bool {
+        self.get(k).is_some()
+    }
+    pub fn get(&self, k: &K) -> Option<&V> {
+        let mut i = 0;
+        while i < N {
+            if let Some((kk, v)) = &self.slots[i] {
+                if kk == k {
+                    return Some(v);
+                }
+            }
+            i += 1;
+        }
+        None
+    }
+    pub fn get_mut(&mut self, k: &K) -> Option<&mut V> {
+        let mut hit = N;
+        let mut i = 0;
+        while i < N {
+            if let Some((kk, _)) = &self.slots[i] {
+                if kk == k && hit == N {
+                    hit = i;
+                }
+            }
+            i += 1;
+        }
+        let mut j = 0;
+        for s in self.slots.iter_mut() {
+            if j == hit {
+                return s.as_mut().map(|(_, v)| v);
+            }
+            j += 1;
+        }
+        None
+    }
+    pub fn insert(&mut self, k: K, v: V) -> Option<V> {
+        let mut i = 0;
+        while i < N {
+            if let Some((kk, _)) = &self.slots[i] {
+                if *kk == k {
+                    return self.slots[i].replace((k, v)).map(|(_, old)| old);
+                }
+            }
+            i += 1;
+        }
+        let mut j = 0;
+        while j < N {
+            if self.slots[j].is_none() {
+                self.slots[j] = Some((k, v));
+                return None;
+            }
+            j += 1;
+        }
+        overflow()
+    }
+    pub fn remove(&mut self, k: &K) -> Option<V> {
+        let mut i = 0;
+        while i < N {
+            let hit = match &self.slots[i] {
+                Some((kk, _)) => kk == k,
+                None => false,
+            };
+            if hit {
+                return self.slots[i].take().map(|(_, v)| v);
+            }
+            i += 1;
+        }
+        None
+    }
+    pub fn iter(&self) -> impl Iterator<Item = (&K, &V)> + '_ {
+        self.slots.iter().filter_map(|c| c.as_ref().map(|(k, v)| (k, v)))
+    }
+    pub fn keys(&self) -> impl Iterator<Item = &K> + '_ {
+        self.slots.iter().filter_map(|c| c.as_ref().map(|(k, _)| k))
+    }
+    pub fn values(&self) -> impl Iterator<Item = &V> + '_ {
+        self.slots.iter().filter_map(|c| c.as_ref().map(|(_, v)| v))
+    }
+    pub fn values_mut(&mut self) -> impl Iterator<Item = &mut V> + '_ {
+        self.slots.iter_mut().filter_map(|c| c.as_mut().map(|(_, v)| v))
+    }
+    pub fn entry(&mut self, k: K) -> SmallEntry<'_, K, V, N> {
+        SmallEntry { map: self, key: k }
+    }
+}
+pub struct SmallEntry<'a, K, V, const N: usize> {
+    map: &'a mut SmallMap<K, V, N>,
+    key: K,
+}
+impl<'a, K: Eq + Clone, V: Default, const N: usize> SmallEntry<'a, K, V, N> {
+    pub fn or_default(self) -> &'a mut V {
+        if !self.map.contains_key(&self.key) {
+            self.map.insert(self.key.clone(), V::default());
+        }
+        self.map.get_mut(&self.key).unwrap()
     }
 }
